@@ -15,6 +15,18 @@
 use super::guard::guard;
 use alea::script::{self, Ans, Kind};
 
+/// wall-clock deadline of the exact engine for the whole check (milliseconds since the UNIX epoch; 0 = none):
+/// explorations that are still running then are cut and reported as inconclusive
+pub static DEADLINE_MS: std::sync::atomic::AtomicU64 = std::sync::atomic::AtomicU64::new(0);
+pub fn set_deadline_in(secs: u64) {
+    let now = std::time::SystemTime::now().duration_since(std::time::UNIX_EPOCH).map(|d| d.as_millis() as u64).unwrap_or(0);
+    DEADLINE_MS.store(now + secs * 1000, std::sync::atomic::Ordering::Relaxed);
+}
+fn past_deadline() -> bool {
+    let d = DEADLINE_MS.load(std::sync::atomic::Ordering::Relaxed);
+    d != 0 && std::time::SystemTime::now().duration_since(std::time::UNIX_EPOCH).map(|t| t.as_millis() as u64 > d).unwrap_or(false)
+}
+
 #[derive(Clone, Debug)]
 pub struct Leaf {
     pub lo: f64,
@@ -92,6 +104,15 @@ impl<'a> Explorer<'a> {
     /// one choice of defaults (PTRS on u = 1e-9) is retried with other defaults; only a sampler that
     /// exceeds the default budget on all of them is reported as not terminating.
     fn run(&mut self, s: &[Ans]) -> RunOut {
+        if self.capped || (self.out.runs % 64 == 0 && past_deadline()) {
+            // cut: unwind the enumeration quickly, the caller reports "inconclusive"
+            if !self.capped {
+                self.capped = true;
+                self.out.structure_errors.push(format!("exploration cut after {} leaves / {} runs: the time budget of the exact engine for this check is used up", self.out.leaves.len(), self.out.runs));
+            }
+            self.out.runs += 1;
+            return RunOut { sig: Sig::Done, value: f64::NAN, msg: String::new() };
+        }
         const DEFAULTS: [(u64, f64); 3] = [(0x0000_0000_0000_0101, 1e-9), (0x0000_0000_0040_0085, 0.5), (0x0000_0000_0100_0143, 0.999)];
         let mut last = None;
         for (k, &(dw, du)) in DEFAULTS.iter().enumerate() {
@@ -130,6 +151,11 @@ impl<'a> Explorer<'a> {
 
     fn rec(&mut self, prefix: Vec<Ans>, mass: f64) {
         if mass <= 0.0 || self.capped {
+            return;
+        }
+        if past_deadline() {
+            self.capped = true;
+            self.out.structure_errors.push(format!("exploration cut after {} leaves / {} runs: the time budget of the exact engine for this check is used up", self.out.leaves.len(), self.out.runs));
             return;
         }
         if self.out.leaves.len() >= self.max_leaves || self.out.runs >= self.max_runs {
